@@ -72,12 +72,12 @@ CLAIMS: dict[str, dict] = {
     ),
     "C17": dict(
         technique="taint + dominance of input-sized allocations on parser traces; recursion-shape rule via message parent pointers; syntactic loop-progress rule",
-        text="Wall time, RSS and interpreter crashes are runtime quantities and are not decided. Decided: no allocation sized by an options-row field above 4096 happens before rejection (3 tables x 5 sizes x 4 parsers); the only recursion on the parse path descends into strict sub-messages; every while loop consumes input and the frame iterator stops at EOF.",
+        text="Wall time, RSS and interpreter crashes are runtime quantities and are not decided. Decided: no allocation sized by an options-row field or an entry id above 4096 happens before rejection; the only recursion on the parse path descends into strict sub-messages; every while loop on the parse path consumes input or has an exit, the frame iterator stops at EOF, and no lazy iterator is nested once per input frame.",
         design_ref="DESIGN.md §5 C17",
     ),
     "C18": dict(
         technique="undersized-table configurations pushed through the serializer source; abstract stream decoded by the reference decoder (refuse-or-correct rule)",
-        text="For enabled tables smaller than one statement needs (prefix 1..4, datatype 1..2, names 8..14 with nested quoted triples; both integrations) serialisation must raise or the stream must decode to the input; exact-size controls must succeed. "
+        text="For enabled tables smaller than one statement needs (prefix 1..4, datatype 1..2, names 8..14 with nested quoted triples; both integrations) serialisation must raise or the stream must decode to the input; exact-size controls must succeed, including every 2-statement history over 5 keys on a 3-slot prefix/datatype table. "
         "One known finding (LRU eviction cannot refuse). Not decided: which concrete statements overflow.",
         design_ref="DESIGN.md §5 C18",
     ),
@@ -94,15 +94,15 @@ CLAIMS: dict[str, dict] = {
     ),
     "C05": dict(
         technique="least fixpoint of reachable joint writer/reader lookup states (finite abstract domain up to key renaming) computed through the source of the index rules; ordering enumeration",
-        text="For table sizes 1..4 (quick) / 1..6 (thorough) and each of the three index rules the closed set of reachable (LookupEncoder, LookupDecoder) states is enumerated through the real source; at every transition the emitted entry id + reference "
-        "resolves on the reader to the writer's key, ids lie in [0,size], the writer holds <= size entries. Closure of a finite state space covers histories of any length. Not decided: sizes above the bound (argued by the comparison-only fragment).",
+        text="For table sizes 1..5 (quick) / 1..6 (thorough) and each of the three index rules the closed set of reachable (LookupEncoder, LookupDecoder) states is enumerated through the real source; at every transition the emitted entry id + reference "
+        "resolves on the reader to the writer's key, ids lie in [0,size], the writer holds <= size entries. The same closure is computed one level up (TermEncoder.encode_iri/encode_literal rows fed to Decoder, prefix/datatype tables of size 1..3, key alphabet size+2). Closure of a finite state space covers histories of any length. Not decided: sizes above the bound (argued by the comparison-only fragment).",
         design_ref="DESIGN.md §5 C05",
     ),
     "C06": dict(
         technique="conditional constant propagation over the complete configuration lattice (abstract interpretation of Stream/FrameFlow/entry-point source), final-state rule",
         text="Decides completely, for every point of the finite lattice {3 stream classes x 8 logical types x delimited x frame sizes x inferred/6 explicit flows x 15 entry points} "
-        "with symbolic statements, whether construction raises or every statement row is emitted and the flow is empty when the entry point returns. "
-        "Exhaustive over configurations (the suite samples a handful); not decided: that the emitted bytes parse back (C01/C02).",
+        "with symbolic statements, whether construction raises, or every row that entered the flow reached the caller, the flow is empty when the entry point returns and an independent specification decoder reads exactly the submitted statements from the abstract frames. "
+        "Exhaustive over configurations (the suite samples a handful); not decided: protobuf byte fidelity.",
         design_ref="DESIGN.md §5 C06",
     ),
     "C08": dict(
@@ -113,8 +113,8 @@ CLAIMS: dict[str, dict] = {
     ),
     "C09": dict(
         technique="I/O-contract taint rule on the resolved receiver class of every read-like call on the parser input (abstract interpretation with an io model)",
-        text="The read schedule is the environment's; decided is pyjelly's use of the I/O API for three source classes x both framings x six public parsers: header bytes for the detector must come from an exact-or-EOF read, "
-        "no raw read after wrapping, frames read from a buffered object. One known finding (peek(3) on a wrapped raw source). Not decided: third-party file objects, gzip internals.",
+        text="The read schedule is the environment's; decided is pyjelly's use of the I/O API for four source classes (BytesIO, seekable/non-seekable caller-supplied BufferedReader over a short-read raw source, raw non-seekable) x framings x six public parsers: header bytes for the detector must come from an exact-or-EOF read, "
+        "no raw read after wrapping, frames (also when read by pyjelly's own code) come from exact reads on a buffered object. One known finding (peek(3) on a wrapped raw source). Not decided: third-party file objects, gzip internals.",
         design_ref="DESIGN.md §5 C09",
     ),
     "C13": dict(
